@@ -1,5 +1,7 @@
-"""C22 (and C21) - explicit-state exploration of the real dispatcher bytecode.
+"""C22 (and C21) - explicit-state exploration of the real dispatcher bytecode,
+plus a combined user-space + kernel exploration of a fast group's life cycle.
 
+Part 1, dispatcher search.
 State = (loop counter low byte, output enabled?, overtaking budget left,
 queue of <= 3 in-flight frames in ring order, consecutive passes without the
 group program, [tracked frame]).  Every delivery executes the real assembled
@@ -7,7 +9,31 @@ group program, [tracked frame]).  Every delivery executes the real assembled
 real assembled `FastSyncGroup` program of a group built over hand-faked
 terminals whose device stamps a pass marker into every output.  Both programs
 are additionally loaded into the real kernel (when possible) and every distinct
-step is replayed through BPF_PROG_TEST_RUN and compared.
+step is replayed through BPF_PROG_TEST_RUN and compared.  The bus answers an
+enabled write datagram with the expected working counter, expected-1 or 0
+(these multiply the deliveries); every distinct step of a frame with an enabled
+write datagram is additionally executed and judged with wrong counters that
+coincide with the expected one in their low bits (expected+0x100, |0x8000,
+0xff00|expected, 0xffff, expected+1, 0x80|expected, expected+0x200; one writer
+at a time and all together) - a wrong counter is one class for the successor
+state, so these do not multiply the states.
+
+Part 2, life cycle (`Life`).
+The real `FastSyncGroup.run` / `SyncGroupBase.run` / `update_devices` /
+`roundtrip_packet` / `datagram_received` of one or two masters (real
+`FastEtherCat` objects, as two processes sharing the pinned table would be)
+run on the virtual loop; the real `FastEtherCat.register_sync_group` loads the
+group's program and edits the program table in the simulated kernel (seams
+`mc.fastsim.SimBpf`); every frame user space sends really circulates: each bus
+pass executes the real dispatcher bytecode and, by tail call, whatever program
+sits in the table slot.  The explorer (stateless search, deviations from a
+default schedule bounded by the tier) owns: bus pass or timer first, loss of
+the oldest / of all frames in flight, a wrong working counter, cancel() of
+run() or running=False at any point once output is enabled, and the random
+group numbers (every function of the random source is owned, tiny domain, so
+collisions between two masters are forced).  Both invariant sets are
+evaluated on every pass, including those between a stop request and the
+unregistration.
 
 One explorer, two invariant sets: `run_for(ctx, "C22")` / `run_for(ctx, "C21")`.
 """
@@ -27,10 +53,21 @@ LEVEL = "model_checking"
 RULE = ("breadth-first search over all dispatcher states reachable by "
         "deliveries (ring order, or out of order within the overtaking budget "
         "K), losses, injections of fresh sterile frames, bus working-counter "
-        "answers and foreign frames, <= 3 frames in flight, per sync-group "
-        "layout and registered/unregistered; every distinct (counter, output "
-        "flag, arriving frame) step runs the real dispatcher + group bytecode; "
-        "a state is non-trivial when at least one frame is in flight")
+        "answers {expected, expected-1, 0} and foreign frames, <= 3 frames in "
+        "flight, per sync-group layout and registered/unregistered; every "
+        "distinct (counter, output flag, arriving frame) step runs the real "
+        "dispatcher + group bytecode, steps of frames with enabled write "
+        "datagrams also with wrong counters that equal the expected one in "
+        "their low bits; a state is non-trivial when at least one frame is "
+        "in flight.  Life cycle: all executions of the real FastSyncGroup.run "
+        "+ register_sync_group of one group (every layout, left-over loop "
+        "counters) and of two masters with one or two groups each on one "
+        "program table, frames passing the real dispatcher + table, with at "
+        "most `bound` deviations (timer/bus order, losses, wrong counter, "
+        "cancel, running=False) from the default schedule and all random "
+        "group numbers from a 3-element domain; an execution is non-trivial "
+        "when the program ran with output enabled and a frame reached user "
+        "space")
 
 TX, PASS = bpfvm.XDP_TX, bpfvm.XDP_PASS
 INDEX0 = 17                    # EtherXDP.INDEX0, raw-frame offset
@@ -1040,6 +1077,12 @@ def work(item, res):
         m.close()
 
 
+def work_any(item, res):
+    if item[0] == "life":
+        return life_work(item, res)
+    return work(item, res)
+
+
 def configs(ctx, prop):
     if ctx.quick:
         layouts, K, cap = QUICK_LAYOUTS, 1, 400000
@@ -1067,7 +1110,17 @@ def run_for(ctx, prop):
     # before any group exists in this process: does each layout build alone?
     for layout in sorted({i[1] for i in items}):
         STANDALONE[layout] = standalone_ok(layout)
-    res = core.pmap(ctx, work, items, chunk=1)
+    # one pool for both explorations: the (few, long) dispatcher searches
+    # first, the many short life-cycle subtrees fill the other workers
+    life0 = core.Result()
+    litems = life_items(ctx, prop, life0)
+    res = core.pmap(ctx, work_any, items + litems, chunk=1)
+    res.merge(life0)
+    life_finish(ctx, res)
+    # the counterexamples with the fewest deviations first
+    res.violations.sort(
+        key=lambda v: len(v["case"].get("deviations", ()))
+        if v["case"].get("part") == "life-cycle" else -1)
     res.cov["kernel_available"] = kern.available()
     res.cov["layouts"] = sorted({i[1] for i in items})
     res.cov["overtaking_budget_K"] = items[0][3]
@@ -1083,7 +1136,11 @@ def run_for(ctx, prop):
         "counted are the group's frames processed by the dispatcher, in "
         "arrival order; foreign frames neither count nor reset",
         "bus model: NOP datagrams are not touched; an enabled write datagram "
-        "gets its working counter raised by expected, expected-1 or 0; "
+        "gets its working counter raised by expected, expected-1 or 0 "
+        "(explored), or arrives with a wrong counter that equals the "
+        "expected one in its low bits (step executed and judged; all wrong "
+        "counters lead to the same successor: counter cleared, one more "
+        "error); "
         "reader datagrams' counters and all process data are left alone "
         "(no program under test reads them); a frame returned with TX "
         "re-enters the ring behind the frames already in flight",
@@ -1125,6 +1182,41 @@ def _life_wrong_value(expected, k):
     v = 0 if base == 0 else (expected + base) & 0xffff if base == 0x100 \
         else (expected | base) & 0xffff
     return v if v != expected else (expected + 1) & 0xffff
+
+
+class _CachedDispatcher:
+    """the dispatcher program generated once per process: the same bytecode
+    over the same descriptor numbers in a fresh kernel"""
+
+    def __init__(self, insns, area, counters_off):
+        self.insns, self.area, self.counters_off = insns, area, counters_off
+
+    set_counter = fastsim.Dispatcher.set_counter
+    get_counter = fastsim.Dispatcher.get_counter
+
+
+_DISP_CACHE = {}
+
+
+def _life_dispatcher(kernel, bpf, programs_fd):
+    c = _DISP_CACHE.get(programs_fd)
+    if c is None:
+        disp, note = fastsim.build_dispatcher(kernel, programs_fd)
+        if note is not None:
+            raise Internal("life cycle: dispatcher not generated: " + note)
+        vfd = bpf.map_fd_of(disp.area)
+        m = kernel.maps[vfd]
+        _DISP_CACHE[programs_fd] = (
+            disp.insns, vfd, (m.type, m.key_size, m.value_size,
+                              m.max_entries), disp.counters_off,
+            fastsim.SimMaps._next_fd[0])
+        return disp
+    insns, vfd, shape, counters_off, next_fd = c
+    if fastsim.SimMaps._next_fd[0] > vfd:
+        raise Internal("life cycle: descriptor numbering changed")
+    m = kernel.maps[vfd] = bpfvm.BpfMap(*shape)
+    fastsim.SimMaps._next_fd[0] = next_fd
+    return _CachedDispatcher(insns, m.area, counters_off)
 
 
 class LifeGroup:
@@ -1233,11 +1325,14 @@ class Life:
         self.outcomes = set()
         self.nrand = 0
 
+    closing = False
+
     def note(self, text):
-        self.log.append(f"[{self.stepno}] {text}")
+        if not self.closing:
+            self.log.append(f"[{self.stepno}] {text}")
 
     def violation(self, prop, name, expected, observed):
-        if (prop, name) not in self.seen:
+        if (prop, name) not in self.seen and not self.closing:
             self.seen.add((prop, name))
             self.viol.append((prop, name, expected, observed, self.stepno))
             self.note(f"VIOLATION {prop}: {name}")
@@ -1251,6 +1346,8 @@ class Life:
         from mc import seams, vloop
         cfg = self.cfg
         fastsim.reset_globals()
+        # descriptor numbers are per kernel: the same in every execution
+        fastsim.SimMaps._next_fd[0] = 1000
         self.kernel = bpfvm.Kernel()
         self.bpf = fastsim.SimBpf(self.kernel)
         self.loop = vloop.VLoop()
@@ -1265,11 +1362,8 @@ class Life:
             # as FastEtherCat.connect does
             self.programs = E.create_map(E.MapType.PROG_ARRAY, 4, 4,
                                          FastEtherCat.MAX_PROGS)
-            self.disp, note = fastsim.build_dispatcher(self.kernel,
-                                                       self.programs)
-            if note is not None:
-                raise Internal("life cycle: dispatcher not generated: "
-                               + note)
+            self.disp = _life_dispatcher(self.kernel, self.bpf,
+                                         self.programs)
             self.table = self.kernel.maps[self.programs]
             self.masters = []
             for mi in range(len(cfg["masters"])):
@@ -1292,7 +1386,9 @@ class Life:
             try:
                 self._drive()
             finally:
-                for g in self.groups:
+                # tidying up is not part of the execution
+                self.closing = True
+                for g in sorted(self.groups, key=lambda g: g.name):
                     if g.task is not None:
                         g.task.cancel()
                 try:
@@ -1327,10 +1423,18 @@ class Life:
             return range(start, stop, step)[0]
         dom = list(self.cfg.get("domain") or SLOT_DOMAIN)
         self.nrand += 1
+        if self.nrand > 40:
+            # a registration that keeps drawing numbers: let it fail
+            # instead of growing the execution without bound
+            raise RuntimeError("harness: more than 40 group numbers drawn")
         taken = set(self.table.progs)
-        free = [x for x in dom if x not in taken]
-        if self._rand_tries >= 2 and free:
-            # after two colliding answers the source hits a free number
+        free = [x for x in dom if x not in taken] or \
+            [x for x in range(FastEtherCat.MAX_PROGS) if x not in taken]
+        if not free:
+            raise Internal("life cycle: the program table is full")
+        if self._rand_tries >= 2 or all(x in taken for x in dom):
+            # after two answers from the domain (or when all of it is
+            # taken) the source hits a free number
             return free[0]
         self._rand_tries += 1
         i = self.ch.choose(len(dom), "randrange", [0] * len(dom))
@@ -1538,7 +1642,7 @@ class Life:
                 g = self.owner(self.wire[0])
                 if g is not None and any(self.wire[0][cp]
                                          for cp, _, _, _ in g.writers):
-                    opts.append(("W", 1))
+                    opts.append(("W", cfg.get("cost_W", 1)))
         for gi, g in enumerate(self.groups):
             if g.stopped is None and g.task is not None \
                     and not g.task.done() and g.operational \
@@ -1546,7 +1650,7 @@ class Life:
                 if "C" in alpha:
                     opts.append((("C", gi), 1))
                 if "R" in alpha:
-                    opts.append((("R", gi), 1))
+                    opts.append((("R", gi), cfg.get("cost_R", 1)))
         return opts
 
     def _apply(self, ev):
@@ -1657,13 +1761,198 @@ class Life:
                             for g in self.groups])
 
 
+def _script_of(cfg):
+    out = {}
+    for step, action, mi, k in cfg.get("script", ()):
+        out.setdefault(step, []).append((action, mi, k))
+    return out
+
+
 def life_execute(ch, cfg):
+    cfg = dict(cfg, script=_script_of(cfg))
     return Life(ch, cfg).run()
 
 
+def life_configs(ctx):
+    """-> [(cfg, deviation bound)]"""
+    quick = ctx.quick
+    layouts = list(QUICK_LAYOUTS) if quick else \
+        [l for l in LAYOUTS if l != "w0r0"]
+    if quick:
+        extra = [l for l in LAYOUTS if l not in layouts and l != "w0r0"]
+        layouts.append(extra[ctx.seed % len(extra)])
+    out = []
+    # (b) one group: start, run, faults, stop
+    counters = [0, 1] if quick else [0, 1, 255]
+    if ctx.seed:
+        counters.append(2 + (ctx.seed * 37) % 250)
+    for n, layout in enumerate(layouts):
+        for c0 in counters:
+            # quick: the full pair alphabet for the first two layouts, the
+            # others get single deviations
+            bound = 2 if (not quick or n < 2) else 1
+            out.append((dict(kind="one-group", masters=[[layout]],
+                             counter0=c0, horizon=24 if quick else 34,
+                             script=[[0, "start", 0, 0]],
+                             alphabet="TDLWCR",
+                             # quick: a wrong counter and running=False
+                             # only on their own, not in pairs
+                             cost_W=2 if quick else 1,
+                             cost_R=2 if quick else 1,
+                             domain=[GROUP_INDEX[layout]]), bound))
+    # (c) two masters on one program table
+    la, lb = layouts[0], layouts[1]
+    # (name, groups per master, the master that leaves while the other
+    # one keeps running)
+    shapes = [("A1-B1", [[la], [lb]], 1),
+              ("A1-B2", [[la], [lb, la]], 0),
+              ("A2-B1", [[la, lb], [lb]], 1)]
+    if not quick:
+        shapes += [("A1-B1'", [[lb], [la]], 0),
+                   ("A2-B2", [[la, lb], [lb, la]], 1)]
+    for name, masters, leaver in shapes:
+        script = [[0, "start", 0, 0]]
+        step = 10
+        if len(masters[0]) > 1:
+            script.append([step, "start", 0, 1])
+            step += 8
+        script.append([step, "start", 1, 0])
+        if len(masters[1]) > 1:
+            step += 8
+            script.append([step, "start", 1, 1])
+        step += 12
+        script.append([step, "cancel", leaver, None])   # one master leaves
+        horizon = step + 10
+        out.append((dict(kind="two-masters:" + name, masters=masters,
+                         counter0=0, horizon=horizon, script=script,
+                         alphabet="TDL" if not quick else "L",
+                         domain=list(SLOT_DOMAIN)),
+                    1 if not quick else (1 if name == "A1-B1" else 0)))
+    return out
+
+
+def life_on_exec(prop, cfg, res):
+    def on_exec(ch, obs):
+        st = obs["stats"]
+        res.count("evaluations")
+        res.count("lifecycle_executions")
+        res.count("traces_validated_against_impl")
+        res.count("transitions", obs["steps"])
+        res.count("states")          # one distinct execution
+        res.count("lifecycle_bus_passes", st["passes"])
+        res.count("lifecycle_enabled_passes", st["enabled"])
+        res.count("lifecycle_teardown_passes", st["teardown_passes"])
+        res.count("lifecycle_slot_collisions", st["collisions"])
+        if any(g["over3"] for g in obs["groups"]):
+            res.count("outside_precondition")
+        for o in obs["outcomes"]:
+            res.outcomes.add(("life",) + o)
+        res.outcomes.add(("life-end", tuple(
+            (g["stopped"], g["registered"], g["done"])
+            for g in obs["groups"])))
+        if st["enabled"] and st["handed_up"]:
+            res.nontrivial.add(core.digest(["life", cfg["kind"],
+                                            cfg["masters"], cfg["counter0"],
+                                            ch.choices]))
+        if len(res.samples) < 1 and ch.cost() == 2:
+            res.sample(dict(part="life-cycle", cfg=cfg,
+                            choices=list(ch.choices), log=obs["log"][-12:]))
+        for p, name, expected, observed, step in obs["viol"]:
+            if p != prop:
+                res.count("violations_of_sibling_property")
+                continue
+            res.count("lifecycle_violating_executions")
+            # the shortest few per kind are enough for the report
+            kept = [v for v in res.violations if v["note"] == name]
+            if len(kept) >= 2:
+                continue
+            res.violation(
+                dict(part="life-cycle", cfg=cfg, choices=list(ch.choices),
+                     deviations=[(i, k) for i, (k, n, c, _) in
+                                 enumerate(ch.trace) if c],
+                     check=name, at_step=step),
+                expected, observed, sig=core.digest([p, name]), note=name)
+    return on_exec
+
+
+def life_work(item, res):
+    import logging
+    _, prop, cfg, bound, root = item
+    run = lambda ch: life_execute(ch, cfg)     # noqa: E731
+    logging.disable(logging.CRITICAL)
+    try:
+        explore.dfs(run, bound, life_on_exec(prop, cfg, res), root=root)
+    finally:
+        logging.disable(logging.NOTSET)
+
+
+def life_items(ctx, prop, res):
+    """work items of the combined user-space + kernel exploration; the root
+    execution of every configuration is done here (into `res`), its
+    subtrees become items for the workers"""
+    import logging
+    logging.disable(logging.CRITICAL)       # time-outs are in the alphabet
+    items = []
+    try:
+        for cfg, bound in life_configs(ctx):
+            run = lambda ch: life_execute(ch, cfg)     # noqa: E731
+            for prefix in explore.frontier(run, bound, 2,
+                                           life_on_exec(prop, cfg, res)):
+                items.append(("life", prop, cfg, bound, prefix))
+            a = life_execute(explore.Chooser(()), cfg)
+            b = life_execute(explore.Chooser(()), cfg)
+            if (a["log"], a["viol"]) != (b["log"], b["viol"]):
+                raise Internal("life cycle: non-deterministic execution")
+    finally:
+        logging.disable(logging.NOTSET)
+    return items
+
+
+def life_finish(ctx, res):
+    if not res.cov.get("lifecycle_teardown_passes"):
+        raise Internal("life cycle: no bus pass between a stop request and "
+                       "the unregistration was explored")
+    if not res.cov.get("lifecycle_slot_collisions"):
+        raise Internal("life cycle: no colliding group number was explored")
+    res.cov["lifecycle_configs"] = len(life_configs(ctx))
+    res.assumptions += [
+        "life cycle: terminal state changes are stubs that take 1 "
+        "(OPERATIONAL) or 2 (SAFE-OPERATIONAL) timer ticks of 1 ms, FMMU "
+        "set-up is a no-op (C14, C20); the bus delivers in ring order; the "
+        "default schedule lets every frame in flight pass the dispatcher "
+        f"{LIFE_ROUNDS} times per timer; deviations: a timer first / a "
+        "further bus pass first, loss of the oldest or of all frames in "
+        "flight, a wrong working counter, cancel() of run() or "
+        "running=False once OPERATIONAL with output enabled",
+        "life cycle: 'registered' is the time between the two halves of "
+        "the real register_sync_group (observed by wrapping the context "
+        "manager); 'its program' is the program in the table slot that "
+        "refers to the group's own variables map; the starvation bound is "
+        "judged only while the history never had more than three frames of "
+        "the group in flight (the statement's precondition)",
+        f"life cycle: 'restart after loss' = the program of a group that "
+        f"is registered and whose run() is alive ran at least once in the "
+        f"last {LIFE_TAIL} steps, in which no deviation is injected",
+    ]
+
+
 # ===================================================================== replay
+def replay_life(ctx, rep, prop):
+    c = rep["case"]
+    ch = explore.Chooser(tuple(c["choices"]))
+    obs = life_execute(ch, c["cfg"])
+    for line in obs["log"]:
+        print("  " + line)
+    print("  deviations:", [(i, k, ch_) for i, (k, n, ch_, _) in
+                            enumerate(ch.trace) if ch_])
+    return [dict(check=name, expected=e, observed=o, at_step=st)
+            for p, name, e, o, st in obs["viol"] if p == prop]
+
+
 def replay_for(ctx, rep, prop):
     c = rep["case"]
+    if c.get("part") == "life-cycle":
+        return replay_life(ctx, rep, prop)
     fastsim.reset_globals()
     m = Model(c["layout"], c["registered"], use_kernel=True)
     out = []
